@@ -429,3 +429,61 @@ def _(root):
     """property-preserving: setdefault asks for presence with a private sentinel default (a stored None is a value), and re-stores as today"""
     sub_all(root, ('_archives.py',), "        res = self.get(key, *value)\n        self.__setitem__(key, res)\n        return res",
             "        _missing = []\n        res = self.get(key, _missing)\n        if res is _missing:\n            res = self.get(key, *value)\n        self.__setitem__(key, res)\n        return res")
+
+
+@V('safe-fallback-logs-name-with-default')
+def _(root):
+    """property-preserving: the safe fallback notes the function's name through getattr with a default (partials and callable instances have none)"""
+    sub_all(root, ('safe.py',), "            except: #TypeError: # unhashable key\n                result = user_function(*args, **kwds)\n                stats[MISS] += 1\n",
+            "            except: #TypeError: # unhashable key\n                note = 'bypass %s' % getattr(user_function, '__name__', repr(user_function))\n                result = user_function(*args, **kwds)\n                stats[MISS] += 1\n")
+
+
+@V('lru-lock-released-around-evaluation-with-finally')
+def _(root):
+    """property-preserving (single-threaded semantics): lru_cache serialises its bookkeeping with an RLock, releases it around the evaluation and re-acquires it
+    in a finally clause, so the function's own exception leaves the wrapper unchanged"""
+    sub_all(root, ('_cache.py',), "        sentinel = object()             # marker for looping around the queue\n", "        sentinel = object()             # marker for looping around the queue\n        from threading import RLock\n        lock = RLock()\n")
+    p = os.path.join(root, 'klepto', '_cache.py')
+    s = open(p).read()
+    a = s.index("class lru_cache(object):")
+    b = s.index("class mru_cache(object):")
+    body = s[a:b]
+    old = "        def wrapper(*args, **kwds):\n"
+    assert body.count(old) == 1
+    body = body.replace(old, "        def _wrapper(*args, **kwds):\n")
+    old2 = "                    # if not found, then compute\n                    result = user_function(*args, **kwds)\n"
+    assert body.count(old2) == 1
+    body = body.replace(old2, "                    # if not found, then compute\n                    lock.release()\n                    try:\n                        result = user_function(*args, **kwds)\n                    finally:\n                        lock.acquire()\n")
+    old3 = "        def archive(obj):\n"
+    assert body.count(old3) == 1
+    body = body.replace(old3, "        def wrapper(*args, **kwds):\n            with lock:\n                return _wrapper(*args, **kwds)\n\n        def archive(obj):\n")
+    open(p, 'w').write(s[:a] + body + s[b:])
+
+
+@V('cache-dump-logs-and-reraises')
+def _(root):
+    """property-preserving: cache.dump notes a failed write and re-raises it"""
+    sub_all(root, ('_archives.py',), "        if not args:\n            self.archive.update(self)\n        for arg in args:\n            if arg in self:\n                self.archive.update({arg:self.__getitem__(arg)})\n        return",
+            "        try:\n            if not args:\n                self.archive.update(self)\n            for arg in args:\n                if arg in self:\n                    self.archive.update({arg:self.__getitem__(arg)})\n        except Exception:\n            failed = self.archive.__class__.__name__\n            raise\n        return")
+
+
+@V('dir-init-attribute-derived-from-a-reduce-argument')
+def _(root):
+    """property-preserving: dir_archive remembers something computed from `serialized`, which __reduce__ hands back to the constructor"""
+    sub_all(root, ('_archives.py',), "        try:\n            self.__state__['id'] = mkdir(dirname, mode=self.__state__['permissions'])",
+            "        self._plain = not serialized\n        try:\n            self.__state__['id'] = mkdir(dirname, mode=self.__state__['permissions'])")
+
+
+@V('keygen-bound-instance-compared-not-tested')
+def _(root):
+    """property-preserving: the bound-instance probe without assert: the instance is compared with None and with the argument, never tested for truth"""
+    sub_all(root, ('_inspect.py',), "            _self = getattr(_bound, '__self__')\n            assert _self == user_args[0]\n",
+            "            _self = getattr(_bound, '__self__')\n            if _self is None or not (_self == user_args[0]): raise AssertionError\n")
+
+
+@V('signature-optional-marker-guarded')
+def _(root):
+    """property-preserving on interpreters without functools.Placeholder: the optional marker is only compared when it exists"""
+    sub_all(root, ('_inspect.py',), "from copy import copy\ndef _keygen(func, ignored, *args, **kwds):", "import functools\nPLACEHOLDER = getattr(functools, 'Placeholder', None)\nfrom copy import copy\ndef _keygen(func, ignored, *args, **kwds):")
+    sub_all(root, ('_inspect.py',), "    _fixed = dict(zip(arg_names[:len(p_args)],p_args))\n",
+            "    _fixed = dict((k,v) for (k,v) in zip(arg_names[:len(p_args)],p_args) if not (PLACEHOLDER is not None and v is PLACEHOLDER))\n")
